@@ -55,6 +55,7 @@ const STAGES: &[(&str, StageFn)] = &[
     ("c05.stress", c05::stress),
     ("c05.manyrecs", c05::manyrecs),
     ("c05.manybatches", c05::manybatches),
+    ("c05.lag", c05::lag),
     ("cgr.manybatches", cgr::manybatches),
     ("c05.hugebatch", c05::hugebatch),
     ("c14.stress", c05::stress),
@@ -68,6 +69,7 @@ const STAGES: &[(&str, StageFn)] = &[
     ("c07.contention", c07::contention),
     ("c07.seams", c07::seams),
     ("c07.fdlimit", c07::fdlimit),
+    ("c07.lag", c07::lag),
     ("c07.cli", c07::cli),
     ("c08.lib", c08::lib),
     ("c08.cli", c08::cli),
@@ -92,6 +94,7 @@ const STAGES: &[(&str, StageFn)] = &[
     ("c10.large", c10::large),
     ("c10.bulk", c10::bulk),
     ("c10.straggler", c10::straggler),
+    ("c10.lag", c10::lag),
     ("c11.one", cgr::one),
     ("c11.reject", cgr::reject),
     ("c11.file", cgr::file),
